@@ -243,26 +243,30 @@ def main():
     rep.assumptions = ["file archive backend only; import SCM sources (exact live build-ids, so wrong predictions are not exercised here)",
                        "host fingerprint emulated by a fingerprintScript printing a harness-controlled file",
                        "the build step is abstracted in BobArtifacts.tla to the contract checked by C01/C05"]
-    res = tlc.run("BobArtifacts", "BobArtifacts.cfg" if quick else "BobArtifacts_thorough.cfg", coverage=True, timeout=3000)
+    num = 300 if quick else 3000
+    jobs = [("main", "BobArtifacts", "BobArtifacts.cfg" if quick else "BobArtifacts_thorough.cfg", dict(coverage=True, timeout=3000))]
+    jobs += [("reach:" + inv, "BobArtifacts", "BobArtifacts_reach_%s.cfg" % inv, dict(timeout=900)) for inv in ("ReachDownloadApp", "ReachRebuildAfterFp")]
+    jobs += [("weak:" + w, "BobArtifacts", "BobArtifacts_weak_%s.cfg" % w, dict(timeout=1800)) for w in WEAK]
+    jobs += [("gen", "BobArtifacts", "BobArtifacts_gen.cfg", dict(workers=1, simulate="num=%d" % num, depth=60, seed=a.seed + 1, timeout=900))]
+    out = tlc.run_many(jobs, parallel=5)
+    res = out["main"]
     rep.add_tlc(res, "BobArtifacts exhaustive (Weak={})")
     if res.violated:
         rep.violation("model:" + res.violated, {"cex": [c[0] for c in res.cex]})
     tlc.require_coverage(res, ACTIONS, "BobArtifacts.cfg")
     for inv in ("ReachDownloadApp", "ReachRebuildAfterFp"):
-        r2 = tlc.run("BobArtifacts", "BobArtifacts_reach_%s.cfg" % inv, timeout=900)
-        if r2.violated != inv:
+        if out["reach:" + inv].violated != inv:
             raise tlc.TlcError("vacuity: %s not reachable" % inv)
     behaviours = []
     for w in WEAK:
-        r = tlc.run("BobArtifacts", "BobArtifacts_weak_%s.cfg" % w, timeout=900, extra=["-continue"])
+        r = out["weak:" + w]
         if not r.printed:
             raise tlc.TlcError("weakened model %s produced no counterexample (vacuous weakening)" % w)
         rep.add_tlc(r, "BobArtifacts Weak={%s} (counterexample generation)" % w)
         sel = select(r.printed, 6 if quick else 40, rng)
         rep.extra.setdefault("weakened_model_counterexamples", {})[w] = {"found": len(r.printed), "replayed": len(sel)}
         behaviours += [(h, "cex:" + w) for h in sel]
-    num = 300 if quick else 3000
-    g = tlc.run("BobArtifacts", "BobArtifacts_gen.cfg", workers=1, simulate="num=%d" % num, depth=60, seed=a.seed + 1, timeout=900)
+    g = out["gen"]
     sel = select(g.printed, 40 if quick else 400, rng,
                  need=lambda h: any(x["a"] == "End" and x["dl"] > 0 for x in h))
     behaviours += [(h, "simulate") for h in sel]
